@@ -342,7 +342,11 @@ impl HelperDef for LocalHelper {
     ) -> HelperResult {
         let s = format!("local({}:{})", self.registered_name, pj_list(h.params()));
         log_line(&s);
-        if self.registered_name.starts_with("w:") {
+        if self.registered_name.starts_with("f:") {
+            // a tag beginning with "f:" makes the local helper write a fixed literal through `write!`
+            // without format arguments (`Output::write_fmt`)
+            write!(out, "literal-0123456789")?;
+        } else if self.registered_name.starts_with("w:") {
             // a tag beginning with "w:" makes the local helper write the rendered text of its first
             // parameter (nothing if there is none) instead of its own description
             let t = h
